@@ -56,12 +56,13 @@ def _ki(name, bounded=None, tier='thorough', timeout=1500):
     return d
 _SLB = '2 inserted nodes with CONCRETE tower heights (this instance), symbolic distinct members (u8) and scores (f64, non-NaN); then one removal; unwind 34'
 # Each in-place instance costs 10-25 minutes and 10-20 GB in CBMC. The thorough tier runs four removal instances (both removal positions for
-# the lowest and for the highest pair of tower heights) and two query instances, two at a time (about an hour); the remaining five are kept
+# the lowest and for the highest pair of tower heights) and two query instances, two at a time (65 minutes measured with the 1/1 pair cut off
+# at 1500 s and recorded as unexplored; that pair now gets 2400 s, so up to 80 minutes); the remaining five are kept
 # under tier 'exhaustive', which no registered command runs (VERIF_TIER=exhaustive ./check C04 runs them all).
 _SL_THOROUGH_RM = {('00', 'first'), ('00', 'second'), ('11', 'first'), ('11', 'second')}
 _SL_THOROUGH_Q = {'00', '10'}
 SKIPLIST_KANI = [_ki('skiplist_comparators', tier='quick', timeout=300)] + \
-    [_ki(f'skiplist_2ins_rm_h{h}_{w}', bounded=_SLB, tier=('thorough' if (h, w) in _SL_THOROUGH_RM else 'exhaustive')) for h in ('00', '01', '10', '11') for w in ('first', 'second')] + \
+    [_ki(f'skiplist_2ins_rm_h{h}_{w}', bounded=_SLB, tier=('thorough' if (h, w) in _SL_THOROUGH_RM else 'exhaustive'), timeout=(2400 if h == '11' else 1500)) for h in ('00', '01', '10', '11') for w in ('first', 'second')] + \
     [_ki(f'skiplist_2ins_queries_h{h}', bounded='2 inserted nodes (concrete heights), symbolic members/scores; symbolic rank and score ranges', tier=('thorough' if h in _SL_THOROUGH_Q else 'exhaustive')) for h in ('00', '01', '10')]
 
 PROPS = {
